@@ -64,10 +64,8 @@ def gen_block(rng, depth, budget, in_call=False, nosusp=False, deep=False):
         budget[0] -= 1
         r = rng.random()
         if nosusp:
-            if r < 0.45:
-                r = 0.5 + rng.random() * 0.5
-            if 0.64 <= r < 0.70:
-                r = 0.5
+            out.append(("L", rng.randint(1, 9)))
+            continue
         if r < 0.30:
             if in_call and not deep:
                 out.append(("S", rng.randint(100, 199)))
@@ -596,7 +594,7 @@ def corpus_cases():
 def run(ctx):
     rng = ctx.rng
     explore(ctx, corpus_cases(), label="corpus: ")
-    n = 60000 if ctx.thorough() else 5000
+    n = 100000 if ctx.thorough() else 15000
     batch = 2500
     done = 0
     while done < n:
